@@ -199,8 +199,10 @@ def run_harness(binp, suite, cases, workdir, timeout_ms=20000, shards=None, tag=
         with open(outp) as f:
             return [json.loads(l) for l in f if l.strip()]
 
+    t0 = time.time()
     with ThreadPoolExecutor(max_workers=shards) as ex:
         outs = list(ex.map(one, range(shards)))
+    log("[harness] ran %d cases (%s) in %.1fs" % (n, suite, time.time() - t0))
     res = [None] * n
     for i, o in enumerate(outs):
         if len(o) != len(chunks[i]):
@@ -376,8 +378,10 @@ def coq_eval(prop, header, terms, typ="N", shards=None, per_file_timeout=900):
             raise CheckError("coqc returned %d values for %d cases" % (len(vals), len(chunks[i])))
         return vals
 
+    t0 = time.time()
     with ThreadPoolExecutor(max_workers=shards) as ex:
         outs = list(ex.map(one, range(shards)))
+    log("[coq] evaluated %d cases in %d shards: %.1fs" % (n, shards, time.time() - t0))
     res = [None] * n
     for i, o in enumerate(outs):
         for k, v in enumerate(o):
